@@ -71,6 +71,7 @@ type c08Case struct {
 	Edge  int        `json:"edge"` // >= 0: use the GLV edge scalar with this index instead of S
 	Alias string     `json:"alias"`
 	Noise uint64     `json:"noise,omitempty"`
+	Recv  string     `json:"recv,omitempty"` // what a fresh (non-aliased) receiver holds before the call
 }
 
 var c08Ops = []string{"add", "sub", "double", "neg", "mul", "mul", "addmixed", "set", "setidentity", "laws", "laws"}
@@ -82,6 +83,7 @@ func genC08(t *rapid.T) c08Case {
 		S: genScalar(t, "s", []int{2, 8, 16}), T: genScalar(t, "t", []int{2, 8, 16}), Edge: -1,
 		Alias: rapid.SampledFrom(c08Alias).Draw(t, "alias"),
 		Noise: noiseSeedFrom(rapid.Uint64().Draw(t, "noise")) & ^uint64(6), // a quarter of the cases, light noise only
+		Recv:  rapid.SampledFrom([]string{"crs", "identity", "torsion", "zero", "mulgen", "self_sub"}).Draw(t, "recv"),
 	}
 	if rapid.IntRange(0, 2).Draw(t, "use_edge") == 0 {
 		c.Edge = rapid.IntRange(0, len(glvEdgeScalars())-1).Draw(t, "edge")
@@ -108,7 +110,20 @@ func evalC08(c c08Case, rec *hx.Rec) error {
 	p, q := hx.ToImpl(rp), hx.ToImpl(rq)
 	p1, p2 := &p, &q
 	recv := new(banderwagon.Element)
-	*recv = hx.ToImpl(hx.G.CRS()[7]) // a dirty receiver
+	switch c.Recv { // what the receiver object holds from "earlier calls"
+	case "identity":
+		recv.SetIdentity()
+	case "torsion":
+		*recv = hx.ToImpl(hx.Flip(hx.G.Identity()))
+	case "zero":
+	case "mulgen":
+		*recv = hx.ToImpl(hx.Rep(hx.G.Mul(hx.G.Generator(), big.NewInt(12345)), 1, 9))
+	case "self_sub":
+		g := banderwagon.Generator
+		recv.Sub(&g, &g)
+	default:
+		*recv = hx.ToImpl(hx.G.CRS()[7])
+	}
 	switch c.Alias {
 	case "recv=p1":
 		recv = p1
